@@ -15,6 +15,12 @@ XML_B = '''<?xml version="1.0" encoding="utf-8"?>
 <transition><source ref="id2"/><target ref="id1"/><label kind="guard">%s</label><label kind="probability">2</label></transition>
 <transition controllable="false"><source ref="id1"/><target ref="id0"/><label kind="select">s : int[0,1]</label><label kind="guard">%s</label><label kind="synchronisation">ch!</label></transition></template>
 <system>system T;</system></nta>'''
+# ... and as the invariant of an urgent and of a committed location
+XML_F = '''<?xml version="1.0" encoding="utf-8"?>
+<nta><declaration>clock x, y; int i, j; double d, e; bool b, c;</declaration>
+<template><name>T</name><location id="id0"><label kind="invariant">%s</label>%s</location><location id="id1"/><init ref="id0"/>
+<transition><source ref="id0"/><target ref="id1"/></transition></template>
+<system>system T;</system></nta>'''
 RELS = {'lt': '<', 'le': '<=', 'ge': '>=', 'gt': '>', 'eq': '==', 'neq': '!='}
 OPND = {'i': ['i', '3', 'j + 1'], 'd': ['d', '1.5'], 'x': ['x', 'y'], 'xy': ['x - y', 'y - x']}
 
@@ -179,6 +185,9 @@ def check(run):
         j.case('i%d' % k).model('xml', XML % (esc(t), 'true')).dump('errors').end()
         j.case('b%d' % k).model('xml', XML_B % (esc(t), 'true')).dump('errors').end()
         j.case('u%d' % k).model('xml', XML_B % ('true', esc(t))).dump('errors').end()
+        if k % 2 == 0 or k >= nplain:
+            j.case('v%d' % k).model('xml', XML_F % (esc(t), '<urgent/>')).dump('errors').end()
+            j.case('w%d' % k).model('xml', XML_F % (esc(t), '<committed/>')).dump('errors').end()
     # the same formulas read in the 3.x syntax (no quantifiers, no xor there), their top-level conjunction written as the comma-separated list of that syntax
     def has(f, heads):
         return f[0] in heads or any(has(x, heads) for x in f[1:] if isinstance(x, tuple))
@@ -195,7 +204,7 @@ def check(run):
     samples = []
     for k, (f, t, m) in enumerate(zip(forms, texts, model)):
         res = {}
-        for pos in 'gibu' + ('op' if k in oldtexts else ''):
+        for pos in 'gibu' + ('op' if k in oldtexts else '') + ('vw' if (k % 2 == 0 or k >= nplain) else ''):
             c = rr['%s%d' % (pos, k)]
             if c['status'] != 'ok' or len(c['cmds']) < 2:
                 run.fail('parser/type checker crashed on %s %r' % ('invariant' if pos == 'i' else 'guard', t), dict(text=t, status=c['status']), shape='crash')
@@ -204,7 +213,8 @@ def check(run):
             errs = [l.split('msg="')[1].split('"')[0] for l in c['cmds'][1][2] if l.startswith('error')]
             res[pos] = (len(errs) == 0, errs)
         for pos, flag, what in (('g', m['guard'], 'guard'), ('i', m['inv'], 'invariant'), ('b', m['guard'], 'guard of an edge leaving a branchpoint'), ('u', m['guard'], 'guard of an uncontrollable edge'),
-                                ('o', m['guard'], 'guard in the 3.x syntax'), ('p', m['inv'], 'invariant in the 3.x syntax')):
+                                ('o', m['guard'], 'guard in the 3.x syntax'), ('p', m['inv'], 'invariant in the 3.x syntax'),
+                                ('v', m['inv'], 'invariant of an urgent location'), ('w', m['inv'], 'invariant of a committed location')):
             if res.get(pos) is None:
                 continue
             if pos in 'op':
